@@ -644,12 +644,12 @@ def run(ctx):
                              "npseed": rng.randrange(2 ** 31)})
     ctx.exhaustive["L2_batches_and_normals"] = True
     # ---- L3
-    npairs = ctx.pick(400, 30000)
+    npairs = ctx.pick(400, 20000)
     nnorm = ctx.pick(60, 3000)
     cases = [gen_pair_case(rng, i + 1) for i in range(npairs)]
     # generic orientations whose z-axes / in-plane angles / relative rotations sit exactly at 0 or 180 degrees: rounding
     # events there are rare (~1 %), so the family is large
-    nedge = ctx.pick(1500, 40000)
+    nedge = ctx.pick(1500, 15000)
     cases += [gen_pair_case(rng, 0, family=EDGE_FAMILIES[i % len(EDGE_FAMILIES)]) for i in range(nedge)]
     cases += [gen_batch_case(rng, 0, not ctx.quick) for _ in range(ctx.pick(120, 3000))]
     for i, c in enumerate(cases):
